@@ -114,6 +114,10 @@ Qed.
 
 Lemma str_sort_in l x : In x (str_sort l) <-> In x l.
 Proof. split; apply Permutation_in; [apply Permutation_sym|]; apply str_sort_perm. Qed.
+Lemma str_sort_in1 l x : In x (str_sort l) -> In x l.
+Proof. apply str_sort_in. Qed.
+Lemma str_sort_in2 l x : In x l -> In x (str_sort l).
+Proof. apply str_sort_in. Qed.
 Lemma str_sort_nodup l : NoDup l -> NoDup (str_sort l).
 Proof. intro H. eapply Permutation_NoDup; [apply str_sort_perm | exact H]. Qed.
 Lemma str_sort_length l : length (str_sort l) = length l.
